@@ -77,6 +77,17 @@ pub fn run(k: &str, c: &Value) -> Value {
             json!({"lasts": lasts, "taken": taken, "reversed": rev.iter().map(circ).collect::<Vec<_>>(), "twice": rev2.iter().map(circ).collect::<Vec<_>>(),
                    "init": init.iter().map(circ).collect::<Vec<_>>(), "tmax": find_tmax_circle(&init).map(circ)})
         }
+        "c10.orient" => {
+            // airfoil/orientation.rs on synthetic stations (the section argument is not used by either implementation)
+            let init: Vec<InscribedCircle> = c["init"].as_array().unwrap().iter().map(mk_circle).collect();
+            let section = Curve2::from_points(&[Point2::new(0.0, 0.0), Point2::new(1.0, 0.0), Point2::new(1.0, 1.0)], 1e-6, false).unwrap();
+            let orient: Box<dyn CamberOrient> = if c["orient"].is_string() { TMaxFwd::make() } else { DirectionFwd::make(v2(&c["orient"])) };
+            match std::panic::catch_unwind(std::panic::AssertUnwindSafe(|| orient.orient_camber_line(&section, init.clone()))) {
+                Ok(Ok(v)) => json!({"init": init.iter().map(circ).collect::<Vec<_>>(), "out": v.iter().map(circ).collect::<Vec<_>>()}),
+                Ok(Err(e)) => json!({"init": init.iter().map(circ).collect::<Vec<_>>(), "err": format!("{}", e)}),
+                Err(_) => json!({"panic": true}),
+            }
+        }
         _ => json!({"unknown": k}),
     }
 }
